@@ -1,5 +1,6 @@
 ------------------------------- MODULE Machine -------------------------------
-(* Operational semantics of the func / arith / cf / scf fragment (properties C13-C16, C28), independent of
+(* Operational semantics of the func / arith / cf / scf fragment and of the llvm dialect's integer / branch / alloca-load-store
+   ops (properties C13-C16, C22, C23, C28), independent of
    the xDSL interpreter.  Programs are DATA (deserialised JSON, produced by harness/serialize.py):
      prog  = [funcs |-> << func ... >>]
      func  = [args |-> <<vid...>>, blocks |-> <<block...>>, nvals |-> N]       blocks of ALL regions, flat
@@ -56,6 +57,44 @@ ArithEval(o, x) ==      \* o: the op record, x: operand values
     [] n = "arith.addui_extended" -> LET s == AddUExt(a, b, W) IN <<TRUE, <<s[1], <<s[2]>>>>>>
     [] n = "arith.mului_extended" -> LET s == MulUExt(a, b, W) IN <<TRUE, <<s[1], s[2]>>>>
     [] n = "arith.mulsi_extended" -> LET s == MulSExt(a, b, W) IN <<TRUE, <<s[1], s[2]>>>>
+\* ---------------------------------------------------------------- llvm dialect integer ops: <<defined (not poison / UB)?, results>>
+\* o.p carries the flags: 1 = nsw, 2 = nuw, 4 = exact, 8 = disjoint, 16 = nneg
+Flag(o, f) == (o.p \div f) % 2 = 1
+SOvfAdd(a, b, W) == Add(SExt(a, W, W + 1), SExt(b, W, W + 1), W + 1) # SExt(Add(a, b, W), W, W + 1)
+UOvfAdd(a, b, W) == Add(ZExt(a, W, W + 1), ZExt(b, W, W + 1), W + 1) # ZExt(Add(a, b, W), W, W + 1)
+SOvfSub(a, b, W) == Sub(SExt(a, W, W + 1), SExt(b, W, W + 1), W + 1) # SExt(Sub(a, b, W), W, W + 1)
+UOvfSub(a, b, W) == ULt(a, b)
+SOvfMul(a, b, W) == Mul(SExt(a, W, 2 * W), SExt(b, W, 2 * W), 2 * W) # SExt(Mul(a, b, W), W, 2 * W)
+UOvfMul(a, b, W) == Mul(ZExt(a, W, 2 * W), ZExt(b, W, 2 * W), 2 * W) # ZExt(Mul(a, b, W), W, 2 * W)
+LLVMEval(o, x) ==
+  LET W == o.w n == o.op a == x[1] b == IF Len(x) >= 2 THEN x[2] ELSE <<>> IN
+  CASE n = "llvm.add" -> <<~(Flag(o, 1) /\ SOvfAdd(a, b, W)) /\ ~(Flag(o, 2) /\ UOvfAdd(a, b, W)), <<Add(a, b, W)>>>>
+    [] n = "llvm.sub" -> <<~(Flag(o, 1) /\ SOvfSub(a, b, W)) /\ ~(Flag(o, 2) /\ UOvfSub(a, b, W)), <<Sub(a, b, W)>>>>
+    [] n = "llvm.mul" -> <<~(Flag(o, 1) /\ SOvfMul(a, b, W)) /\ ~(Flag(o, 2) /\ UOvfMul(a, b, W)), <<Mul(a, b, W)>>>>
+    [] n = "llvm.udiv" -> IF IsZero(b) THEN <<FALSE, <<>>>> ELSE <<~(Flag(o, 4) /\ ~IsZero(URem(a, b, W))), <<UDiv(a, b, W)>>>>
+    [] n = "llvm.sdiv" -> IF IsZero(b) \/ (a = IntMin(W) /\ b = AllOnes(W)) THEN <<FALSE, <<>>>>
+                          ELSE <<~(Flag(o, 4) /\ ~IsZero(SRem(a, b, W))), <<SDiv(a, b, W)>>>>
+    [] n = "llvm.urem" -> IF IsZero(b) THEN <<FALSE, <<>>>> ELSE <<TRUE, <<URem(a, b, W)>>>>
+    [] n = "llvm.srem" -> IF IsZero(b) \/ (a = IntMin(W) /\ b = AllOnes(W)) THEN <<FALSE, <<>>>> ELSE <<TRUE, <<SRem(a, b, W)>>>>
+    [] n \in {"llvm.shl", "llvm.lshr", "llvm.ashr"} ->
+         LET k == ShAmt(b, W) IN
+         IF k >= W THEN <<FALSE, <<>>>>
+         ELSE IF n = "llvm.shl" THEN
+                LET r == Shl(a, k, W) IN <<~(Flag(o, 2) /\ LShr(r, k, W) # a) /\ ~(Flag(o, 1) /\ AShr(r, k, W) # a), <<r>>>>
+         ELSE IF n = "llvm.lshr" THEN LET r == LShr(a, k, W) IN <<~(Flag(o, 4) /\ Shl(r, k, W) # a), <<r>>>>
+         ELSE LET r == AShr(a, k, W) IN <<~(Flag(o, 4) /\ Shl(r, k, W) # a), <<r>>>>
+    [] n = "llvm.and" -> <<TRUE, <<BAnd(a, b, W)>>>>
+    [] n = "llvm.or" -> <<~(Flag(o, 8) /\ ~IsZero(BAnd(a, b, W))), <<BOr(a, b, W)>>>>
+    [] n = "llvm.xor" -> <<TRUE, <<BXor(a, b, W)>>>>
+    [] n = "llvm.icmp" -> <<TRUE, <<B1(CmpI(o.p, a, b, o.sw))>>>>
+    [] n = "llvm.select" -> <<TRUE, <<IF Truthy(a) THEN x[2] ELSE x[3]>>>>
+    [] n = "llvm.zext" -> <<~(Flag(o, 16) /\ SignBit(a, o.sw) = 1), <<ZExt(a, o.sw, W)>>>>
+    [] n = "llvm.sext" -> <<TRUE, <<SExt(a, o.sw, W)>>>>
+    [] n = "llvm.trunc" -> <<~(Flag(o, 1) /\ SExt(Trunc(a, W), W, o.sw) # a) /\ ~(Flag(o, 2) /\ ZExt(Trunc(a, W), W, o.sw) # a), <<Trunc(a, W)>>>>
+    [] n = "llvm.mlir.constant" -> <<TRUE, <<o.k>>>>
+IsLLVM(n) == n \in {"llvm.add", "llvm.sub", "llvm.mul", "llvm.udiv", "llvm.sdiv", "llvm.urem", "llvm.srem", "llvm.shl", "llvm.lshr", "llvm.ashr",
+  "llvm.and", "llvm.or", "llvm.xor", "llvm.icmp", "llvm.select", "llvm.zext", "llvm.sext", "llvm.trunc", "llvm.mlir.constant"}
+
 IsArith(n) == n \in {"arith.constant", "arith.addi", "arith.subi", "arith.muli", "arith.andi", "arith.ori", "arith.xori", "arith.divui",
   "arith.remui", "arith.ceildivui", "arith.divsi", "arith.remsi", "arith.floordivsi", "arith.ceildivsi", "arith.shli", "arith.shrui",
   "arith.shrsi", "arith.minsi", "arith.maxsi", "arith.minui", "arith.maxui", "arith.cmpi", "arith.select", "arith.extui", "arith.extsi",
@@ -67,7 +106,7 @@ NewFrame(prog, f, argvals) ==
   [f |-> f, b |-> 1, pc |-> 1, conts |-> <<>>,
    env |-> Put([v \in 1 .. F.nvals |-> Undef], F.blocks[1].args, argvals)]
 InitMachine(prog, f, argvals, fuel) ==
-  [stack |-> <<NewFrame(prog, f, argvals)>>, status |-> "run", rets |-> <<>>, eff |-> <<>>, fuel |-> fuel]
+  [stack |-> <<NewFrame(prog, f, argvals)>>, status |-> "run", rets |-> <<>>, eff |-> <<>>, fuel |-> fuel, heap |-> <<>>]
 
 Top(m) == m.stack[Len(m.stack)]
 SetTop(m, fr) == [m EXCEPT !.stack = [@ EXCEPT ![Len(m.stack)] = fr]]
@@ -95,6 +134,19 @@ Step(prog, m) ==
        LET res == ArithEval(o, x) IN
        IF ~res[1] THEN Halt(m1, "ub")
        ELSE SetTop(m1, [fr EXCEPT !.env = Put(fr.env, o.r, res[2]), !.pc = fr.pc + 1])
+  ELSE IF IsLLVM(n) THEN
+       LET res == LLVMEval(o, x) IN
+       IF ~res[1] THEN Halt(m1, "ub")       \* poison / immediate UB: no obligation on the compiled code
+       ELSE SetTop(m1, [fr EXCEPT !.env = Put(fr.env, o.r, res[2]), !.pc = fr.pc + 1])
+  ELSE IF n = "llvm.alloca" THEN          \* one cell; a pointer is <<"ptr", cell index>>
+       SetTop([m1 EXCEPT !.heap = Append(m.heap, Undef)], [fr EXCEPT !.env = Put(fr.env, o.r, << <<"ptr", Len(m.heap) + 1>> >>), !.pc = fr.pc + 1])
+  ELSE IF n = "llvm.store" THEN
+       IF Len(x[2]) # 2 \/ x[2][1] # "ptr" THEN Halt(m1, "stuck")
+       ELSE SetTop([m1 EXCEPT !.heap[x[2][2]] = x[1]], [fr EXCEPT !.pc = fr.pc + 1])
+  ELSE IF n = "llvm.load" THEN
+       IF Len(x[1]) # 2 \/ x[1][1] # "ptr" THEN Halt(m1, "stuck")
+       ELSE IF m.heap[x[1][2]] = Undef \/ Len(m.heap[x[1][2]]) # NL(o.w) THEN Halt(m1, "ub")     \* uninitialised / differently typed read
+       ELSE SetTop(m1, [fr EXCEPT !.env = Put(fr.env, o.r, <<m.heap[x[1][2]]>>), !.pc = fr.pc + 1])
   ELSE IF n = "cf.br" THEN SetTop(m1, Enter(prog, fr, o.succ[1].b, Get(fr.env, o.succ[1].args)))
   ELSE IF n = "cf.cond_br" THEN
        LET s == IF Truthy(x[1]) THEN o.succ[1] ELSE o.succ[2] IN SetTop(m1, Enter(prog, fr, s.b, Get(fr.env, s.args)))
